@@ -188,3 +188,21 @@ func runBounded(repo, verif, prop, tier string) (summary []string, failing []str
 	}
 	return
 }
+
+// noteReplay copies the outcome of the search already run for another obligation of the same check into a replay file.
+func noteReplay(path string, confirmed bool, detail string) {
+	var rec map[string]interface{}
+	if data, err := os.ReadFile(path); err == nil {
+		json.Unmarshal(data, &rec)
+	}
+	if rec == nil {
+		rec = map[string]interface{}{}
+	}
+	rec["replay_confirmed"] = confirmed
+	if detail != "" {
+		rec["failing_inputs"] = []string{detail}
+	}
+	rec["replay_note"] = "same search as for the first failing obligation of this run"
+	data, _ := json.MarshalIndent(rec, "", " ")
+	os.WriteFile(path, data, 0o644)
+}
